@@ -164,6 +164,15 @@ func apply(db *pebbledb.PebbleScanner, m *storemodel.Model, mu Mut) error {
 }
 
 func genHistory(r *rand.Rand, variant int) []Mut {
+	if variant == 3 {
+		// a store that holds an exact multiple of RebuildIndexes' chunk size (1000 signatures)
+		// when the rebuild runs: the last chunk commit is also the last write of the rebuild
+		big := Mut{Kind: "AddBatch"}
+		for i := 0; i < 1000*(1+r.Intn(2)); i++ {
+			big.Sigs = append(big.Sigs, sigs.Random(r, fmt.Sprintf("B%05d", i), i))
+		}
+		return []Mut{big, {Kind: "Rebuild"}}
+	}
 	n := 3 + r.Intn(6)
 	var h []Mut
 	live := map[string]detection.Signature{}
@@ -407,6 +416,9 @@ func main() {
 		}
 		if hi%20 == 7 {
 			variant = 2
+		}
+		if hi%20 == 13 {
+			variant = 3
 		}
 		jobs = append(jobs, job{hi, variant, genHistory(evid.Rand(int64(7000+hi)), variant)})
 	}
